@@ -283,15 +283,20 @@ def call(fn):
     with np.errstate(all="ignore"):
         try:
             return True, fn()
-        except Exception as e:      # classified by the caller
-            e._tb = traceback.extract_tb(e.__traceback__)
+        except Exception as e:      # classified by the caller (traceback is only extracted for violations)
             return False, e
+
+
+def _frames(e):
+    if not hasattr(e, "_tb"):
+        e._tb = traceback.extract_tb(e.__traceback__)
+    return e._tb
 
 
 def where_raised(e):
     """innermost nifty frame that is not the AnyArray wrapper: 'file.py:function'"""
     best = "?"
-    for fr in getattr(e, "_tb", []):
+    for fr in _frames(e):
         fn = fr.filename.replace("\\", "/")
         if "/nifty/" in fn and not fn.endswith("any_array.py"):
             best = "%s:%s" % (fn.split("/")[-1], fr.name)
@@ -378,7 +383,7 @@ def exc_key(e, **kw):
 
 
 def exc_detail(e):
-    return "".join(traceback.format_list(getattr(e, "_tb", [])[-6:])) + repr(e)
+    return "".join(traceback.format_list(_frames(e)[-6:])) + repr(e)
 
 
 # ------------------------------------------------------------------ families
